@@ -87,6 +87,12 @@ CLAIMS = {
              "referencing table is handled by reindex_elements; every row drop in the toolbox is preceded by group "
              "detach and followed by result/reference cascade; re-indexing covers result tables.",
              "schema-vs-toolbox table agreement + ordering on ast"),
+    "C23": C("Only the replacement family is claimed: every parameter of an element created by a replace_* function of the "
+             "toolbox (line<->impedance, ward/xward -> internal elements or ward, ext_grid<->gen, gen<->sgen, load/sgen/"
+             "storage conversions) has the unit, decimal scale, base-power degree, parallel degree and sign of its column "
+             "and flows from the corresponding parameter of the replaced element. Re-indexing, merging, sub-net selection, "
+             "dropping and fusing are not decided.",
+             "monomial-shape abstract interpretation (rows of itertuples/iterrows as table rows, create_* inlined)"),
     "C24": C("Sibling agreement of single and batch creators: std-type keys consumed, columns written, existence and "
              "index checks called, duplicate-cost predicate structure.",
              "sibling cross-check of literal tables on ast"),
@@ -120,7 +126,6 @@ NOT_APPLICABLE = {
     "C10": "equal weighted slack deviation is a property of the converged Newton solution over run-time islands; not decidable from code shape (DESIGN.md section 5)",
     "C11": "equality of sequence-frame and single-phase solutions and per-phase balance are numerical; no structural clause beyond those checked for C01/C02 (DESIGN.md section 5)",
     "C21": "round-trip equality of power-flow results through ppc/mpc is numerical; a column-coverage proxy would fire on legitimate converter scope changes (DESIGN.md section 5)",
-    "C23": "electrical neutrality is equality of power-flow results before/after; parameter-copy coverage is neither sufficient nor necessary (DESIGN.md section 5)",
     "C29": "monotonicity of trip time in current depends on run-time characteristic data and interpolation (DESIGN.md section 5)",
     "C32": "interpolation through support points is a property of scipy interpolators on run-time data (DESIGN.md section 5)",
     "C33": "containment of (P,Q) in capability areas is geometric/numeric over run-time polygons and voltages (DESIGN.md section 5)",
